@@ -1,7 +1,7 @@
 #!/bin/sh
 # usage: trydiffs.sh <dir-with-rNN.diff> [props]   -- false-alarm test: apply each diff to a scratch copy, run the checks, report anything that fires
 set -u
-DIR=$1; PROPS=${2:-"C01 C02 C03 C04 C05 C06 C07 C08 C09 C10 C11 C12 C13 C14 C15 C16 C17 C18 C19"}
+DIR=$(realpath "$1"); PROPS=${2:-"C01 C02 C03 C04 C05 C06 C07 C08 C09 C10 C11 C12 C13 C14 C15 C16 C17 C18 C19"}
 export GOFLAGS=-mod=mod GOPROXY=off GOSUMDB=off GOTOOLCHAIN=local GOWORK=off
 for df in "$DIR"/r*.diff; do
   D=$(mktemp -d /tmp/rf.XXXXXX)
